@@ -67,7 +67,8 @@ int main(int argc, char** argv) {
          if (gap == 0) { o.count("sba-exempt(mh=mH)"); }
          else {
             const double tol = 1e-9 + 1e-13 * Sm / gap;   // ill-conditioned for nearly degenerate CP-even states: error ~ eps x (scale of the mass-matrix entries)/(mH^2 - mh^2)
-            clause("sin(beta-alpha)", cell + (gap < 1e-3 * mmax2 ? "|near-degenerate" : ""), es, tol, c);
+            if (tol > 1e-3) o.count("sba-ill-conditioned(eps*scale/(mH^2-mh^2) > 1e-3): inconclusive");   // the angle is numerically undetermined
+            else clause("sin(beta-alpha)", cell + (gap < 1e-3 * mmax2 ? "|near-degenerate" : ""), es, tol, c);
             clause("cos(beta-alpha)>=0", cell, cba >= -1e-12 ? 0 : -cba, 0, c);
          }
       }
@@ -101,7 +102,7 @@ int main(int argc, char** argv) {
             const double eg = std::max({relm(m2.get_Mhh(0), m.get_Mhh(0)), relm(m2.get_Mhh(1), m.get_Mhh(1)), relm(m2.get_MAh(1), m.get_MAh(1)), relm(m2.get_MHm(1), m.get_MHm(1))});
             clause("gauge-basis-rebuild:masses", ty, eg, 1e-9, c);
             const double gap = b.mH * b.mH - b.mh * b.mh;
-            if (gap > 0) clause("gauge-basis-rebuild:sin(beta-alpha)", ty, std::fabs(std::fabs(m2.get_sin_beta_minus_alpha()) - std::fabs(m.get_sin_beta_minus_alpha())), 1e-8 + 1e-12 * Sm / gap, c);
+            if (gap > 0 && 1e-12 * Sm / gap < 1e-3) clause("gauge-basis-rebuild:sin(beta-alpha)", ty, std::fabs(std::fabs(m2.get_sin_beta_minus_alpha()) - std::fabs(m.get_sin_beta_minus_alpha())), 1e-8 + 1e-12 * Sm / gap, c);
             // and back: mass basis from the rebuilt model's outputs
             thdm::Mass_basis b2 = b; b2.mh = m2.get_Mhh(0); b2.mH = m2.get_Mhh(1); b2.mA = m2.get_MAh(1); b2.mHp = m2.get_MHm(1); b2.sin_beta_minus_alpha = std::max(-1.0, std::min(1.0, m2.get_sin_beta_minus_alpha()));
             b2.tan_beta = m2.get_tan_beta(); b2.m122 = m2.get_m122(); b2.lambda_6 = m2.get_lambda6(); b2.lambda_7 = m2.get_lambda7();
